@@ -1,6 +1,7 @@
 package main
 
 import (
+	"encoding/base64"
 	"encoding/json"
 	"fmt"
 	"net/http"
@@ -12,6 +13,7 @@ import (
 	testv1 "connectrpc.com/vanguard/internal/gen/vanguard/test/v1"
 	"google.golang.org/protobuf/encoding/protojson"
 	"google.golang.org/protobuf/proto"
+	"google.golang.org/protobuf/types/known/durationpb"
 	"google.golang.org/protobuf/types/known/fieldmaskpb"
 	"google.golang.org/protobuf/types/known/timestamppb"
 )
@@ -167,6 +169,7 @@ func init() {
 		// long-lived transcoders shared by all cases (so that state carried between requests shows)
 		var seen backendObs
 		var answer proto.Message
+		var answerErr *backendResp // when set: end the RPC with this error (code, message, details)
 		backend := http.HandlerFunc(func(w http.ResponseWriter, rq *http.Request) {
 			seen = backendObs{Calls: seen.Calls + 1, Method: rq.Method, Path: rq.URL.Path}
 			buf := make([]byte, 1<<16)
@@ -183,6 +186,15 @@ func init() {
 			if seen.lastReadErr() != "EOF" {
 				w.Header().Set("Grpc-Status", "13")
 				w.Header().Set("Grpc-Message", "read failed")
+				return
+			}
+			if answerErr != nil {
+				w.Header().Set("Grpc-Status", strconv.FormatInt(answerErr.ErrCode, 10))
+				w.Header().Set("Grpc-Message", percentEncode(answerErr.ErrMsg))
+				if len(answerErr.Details) > 0 {
+					bin, _ := proto.Marshal(answerErr.statusProto())
+					w.Header().Set("Grpc-Status-Details-Bin", base64.RawStdEncoding.EncodeToString(bin))
+				}
 				return
 			}
 			w.WriteHeader(200)
@@ -216,6 +228,14 @@ func init() {
 		for i := 0; i < c.n; i++ {
 			call := genRestCall(r)
 			answer = call.resp
+			answerErr = nil
+			failing := !call.invalid && r.chance(1, 6)
+			if failing {
+				answerErr = &backendResp{ErrCode: int64(1 + r.intn(16)), ErrMsg: pick(r, respErrMessages)}
+				if r.chance(2, 3) {
+					answerErr.Details = []proto.Message{durationpb.New(2500000000), &testv1.Book{Name: "detail"}}[:1+r.intn(2)]
+				}
+			}
 			seen = backendObs{}
 			chain := r.chance(1, 2) && !call.invalid
 			var res scenarioResult
@@ -281,8 +301,20 @@ func init() {
 			if call.invalid {
 				kind = 2
 			}
-			c.emit(Case{Suite: "rest.bind", In: L{kind, B(call.name), B(call.target)}, Out: L{reqEqual, respEqual, code, int64(res.Rec.status()), int64(seen.Calls), res.Panic != ""},
-				Tags: []string{"restbind:" + call.name, "restbind.kind:" + []string{"rest-client", "chain", "invalid"}[kind]}, Desc: res.Panic})
+			wantCode, wantDetails := int64(0), int64(0)
+			gotDetails := int64(0)
+			gotMsgOK := true
+			if failing {
+				kind = 3
+				wantCode, wantDetails = answerErr.ErrCode, int64(len(answerErr.Details))
+				for _, e := range view.Ends {
+					gotDetails = int64(len(e.Details))
+					gotMsgOK = e.Msg == answerErr.ErrMsg
+				}
+			}
+			c.emit(Case{Suite: "rest.bind", In: L{kind, B(call.name), B(call.target), wantCode, wantDetails},
+				Out: L{reqEqual, respEqual, code, int64(res.Rec.status()), int64(seen.Calls), res.Panic != "", gotDetails, gotMsgOK},
+				Tags: []string{"restbind:" + call.name, "restbind.kind:" + []string{"rest-client", "chain", "invalid", "error"}[kind]}, Desc: res.Panic})
 		}
 	}
 }
